@@ -97,7 +97,8 @@ def classify(case, impl, model, disc):
 LEVEL_TEXT = ("Proof: C04_parts_exact (for every ts-sorted permutation pandas may produce: kernel_time = span, idle = uncovered cells, compute = cells "
               "covered by computation kernels, non_compute = remainder, all >= 0, sum = kernel_time), C04_merge_measure / C04_merge_separated for "
               "merge_kernel_intervals, C04_asserts_hold; unbounded in the number of intervals. Correspondence on all seven value columns of "
-              "get_temporal_breakdown.")
+              "get_temporal_breakdown."
+              " C04_resolution_independent: times multiplied by k > 0 multiply all four times by k.")
 LEVEL_NOTE = ("Hand model of merge_kernel_intervals / _get_idle_time_for_kernels / idle_time_per_rank; kernel classification modelled from the three "
               "regex constants (checked literally by the translator). Time measure = number of unit cells (integer timestamps). Float division and "
               "rounding of percentages not modelled (tolerance).")
